@@ -298,6 +298,16 @@ class Flow:
                 return [(st, self.modconst[node.id])]
             if node.id in ("True", "False", "None"):
                 return [(st, {"True": True, "False": False, "None": None}[node.id])]
+            if self.template and f"__shared_{node.id}" in st.env:
+                return [(st, st.env[f"__shared_{node.id}"])]
+            if self.template and node.id in getattr(self, "module_lists", ()):
+                # a list the emitted code creates at module level: one object for every call (reported where it is
+                # handed to a rule function); within one call it behaves like any list
+                st = st.fork()
+                shared = self.newlist(st)
+                st.env[f"__shared_{node.id}"] = shared
+                st.note("SHAREDLIST", f"the emitted function uses the module-level list {node.id}: state shared between calls of the generated parser")
+                return [(st, shared)]
             if self.template and node.id not in _FREE_OK and node.id not in self.free_ok and not node.id.startswith(("parse_", "CHILD_")):
                 st = st.fork()
                 st.note("R5", f"name {node.id} read before assignment")
@@ -1185,6 +1195,16 @@ class Flow:
             cid = cid.childref
         if not (isinstance(state_arg, PathRef) and state_arg.path == "state"):
             raise self.unsupported(f"child {cid} called without the parser state")
+        if not isinstance(lst, LRef) and self.template and isinstance(lst, Opq) and lst.src.isidentifier():
+            # the emitted function hands a rule function a list that is not its own: a name of the enclosing (module)
+            # scope.  Every call - and every thread - then collects into the same object.
+            st = st.fork()
+            st.note("SHAREDLIST", f"a rule function is handed the non-local list {lst.src}: state shared between calls of the generated parser")
+            shared = st.env.get(f"__shared_{lst.src}")
+            if not isinstance(shared, LRef):
+                shared = self.newlist(st)
+                st.env[f"__shared_{lst.src}"] = shared
+            lst = shared
         if not isinstance(lst, LRef):
             raise self.unsupported(f"child {cid.cid} called with a non-list second argument")
         ok = st.fork()
